@@ -722,7 +722,8 @@ FAULTS = ('f_wrong_class', 'f_wrong_name', 'f_foreign_elem', 'f_level_add', 'f_l
           'f_children_moved_then_bad', 'f_stale_handle_badvalue', 'f_proxy_wrongtype_value', 'f_value_other_datatype_object')
 WILD = ('w_reattach', 'w_add_twice', 'w_set_own', 'w_read', 'w_parent_ctor', 'w_del_view', 'w_pop', 'w_children_assign',
         'w_value', 'w_setitem_view', 'w_deep_write', 'w_detached_readd', 'w_parent_assign', 'w_insert_view',
-        'w_dtobject', 'w_setitem_view_elem', 'w_read_beyond', 'w_unnamed_component_value', 'w_unnamed_component_retype')
+        'w_dtobject', 'w_setitem_view_elem', 'w_read_beyond', 'w_unnamed_component_value', 'w_unnamed_component_retype',
+        'w_parent_none', 'w_extend_from_other')
 
 
 class Skip(Exception):
@@ -1157,6 +1158,19 @@ def apply_wild(world, op):
         G(lambda: setattr(comp, 'value', 'x'))
         if i % 2 and fld.children.list:
             G(lambda: fld.children.remove(fld.children.list[0]))
+    elif k == 'w_parent_none':
+        # child.parent = None through the public setter: the child is detached - no element lists it any more
+        src = reps(el)
+        if not src:
+            raise Skip()
+        child = src[i % len(src)]
+        world.detached.append(child)
+        G(lambda: setattr(child, 'parent', None))
+    elif k == 'w_extend_from_other':
+        # the MutableSequence mix-ins over another element's children view: children.extend(other.children)
+        if not reps(other):
+            raise Skip()
+        G(lambda: el.children.extend(other.children))
     elif k == 'w_reattach':
         src = reps(other)
         if src:
